@@ -14,6 +14,7 @@ RULE = ("Hypothesis generates (message lists per direction incl. empty/equal/lar
         "send_message arguments; at quiescence after stabilisation they are equal. Non-trivial = >=2 messages in "
         "one direction AND (>=1 dup/reorder applied to a queued `message`, or >=1 connection loss). Distinct = "
         "distinct (feature vector, abstract event-kind trace).")
+RULE += (' Added later: one side may call close() in the middle of the exchange (the prefix oracle keeps running, the completeness clause is then not asserted); graceful server closes pass through the WebSocket CLOSING window (sendMessage raises).')
 ASSUMPTIONS = ["simulated WebSocket layer delivers whole JSON messages (DESIGN 2.1)",
                "real wormhole_mailbox_server protocol object and sqlite db in memory",
                "liveness judged at quiescence within a step budget after faults stop"]
